@@ -238,17 +238,6 @@ CLOCK_PKGS = {
     "consumer": "core/internal/consumer",
 }
 
-PKG_DIRS = {
-    "storage": "core/internal/storage",
-    "evaluator": "core/internal/evaluator",
-    "notifier": "core/internal/notifier",
-    "cluster": "core/internal/cluster",
-    "consumer": "core/internal/consumer",
-    "httpserver": "core/internal/httpserver",
-    "core": "core",
-    "helpers": "core/internal/helpers",
-}
-
 CLOCK_FILE = """package %s
 
 import (
@@ -281,52 +270,56 @@ def package_name(pkgdir):
     raise BuildError("no package clause in " + pkgdir)
 
 
-def make_overlay():
-    """Writes _build/overlay.json: probe files injected as new _test.go files; for the packages that read the
-    wall clock, a token-for-token rewrite time.Now -> verifNow of their non-test sources (copies under _build)."""
-    with Lock("overlay"):
-        odir = os.path.join(BUILD, "overlay_src")
-        shutil.rmtree(odir, ignore_errors=True)
-        os.makedirs(odir, exist_ok=True)
-        replace = {}
-        for key, rel in CLOCK_PKGS.items():
-            pkgdir = os.path.join(REPO, rel)
-            if not os.path.isdir(pkgdir):
+def probe_pkg(key):
+    """probes/<key>/PKG names the /repo package (relative path) the probe files of that directory are injected into."""
+    return open(os.path.join(PROBES, key, "PKG")).read().strip()
+
+
+def make_overlay(key):
+    """Writes _build/overlay_<key>.json: the probe files of probes/<key>/ injected as new files of their package; for
+    the packages that read the wall clock, a token-for-token rewrite time.Now() -> verifNow() of their non-test
+    sources (copies under _build; /repo itself is never written)."""
+    odir = os.path.join(BUILD, "overlay_src", key)
+    shutil.rmtree(odir, ignore_errors=True)
+    os.makedirs(odir, exist_ok=True)
+    replace = {}
+    for ck, rel in CLOCK_PKGS.items():
+        pkgdir = os.path.join(REPO, rel)
+        if not os.path.isdir(pkgdir):
+            continue
+        pname = package_name(pkgdir)
+        touched = False
+        for f in sorted(glob.glob(os.path.join(pkgdir, "*.go"))):
+            if f.endswith("_test.go"):
                 continue
-            pname = package_name(pkgdir)
-            touched = False
-            for f in sorted(glob.glob(os.path.join(pkgdir, "*.go"))):
-                if f.endswith("_test.go"):
-                    continue
-                src = open(f).read()
-                if "time.Now()" not in src:
-                    continue
-                new = src.replace("time.Now()", "verifNow()")
-                if not new.endswith("\n"):
-                    new += "\n"
-                new += "var _ time.Duration // keeps the time import used after the verif clock rewrite\n"
-                dst = os.path.join(odir, key + "__" + os.path.basename(f))
-                open(dst, "w").write(new)
-                replace[f] = dst
-                touched = True
-            if touched:
-                dst = os.path.join(odir, key + "__zz_verif_clock.go")
-                open(dst, "w").write(CLOCK_FILE % pname)
-                replace[os.path.join(pkgdir, "zz_verif_clock.go")] = dst
-        for key, rel in PKG_DIRS.items():
-            pdir = os.path.join(PROBES, key)
-            for f in sorted(glob.glob(os.path.join(pdir, "*.go"))):
-                replace[os.path.join(REPO, rel, os.path.basename(f))] = f
-        path = os.path.join(BUILD, "overlay.json")
-        open(path, "w").write(json.dumps({"Replace": replace}, indent=1))
-        return path
+            src = open(f).read()
+            if "time.Now()" not in src:
+                continue
+            new = src.replace("time.Now()", "verifNow()")
+            if not new.endswith("\n"):
+                new += "\n"
+            new += "var _ time.Duration // keeps the time import used after the verif clock rewrite\n"
+            dst = os.path.join(odir, ck + "__" + os.path.basename(f))
+            open(dst, "w").write(new)
+            replace[f] = dst
+            touched = True
+        if touched:
+            dst = os.path.join(odir, ck + "__zz_verif_clock.go")
+            open(dst, "w").write(CLOCK_FILE % pname)
+            replace[os.path.join(pkgdir, "zz_verif_clock.go")] = dst
+    rel = probe_pkg(key)
+    for f in sorted(glob.glob(os.path.join(PROBES, key, "*.go"))):
+        replace[os.path.join(REPO, rel, os.path.basename(f))] = f
+    path = os.path.join(BUILD, "overlay_%s.json" % key)
+    open(path, "w").write(json.dumps({"Replace": replace}, indent=1))
+    return path
 
 
 def build_probe(key, race=False):
-    """go test -c of /repo's package <key> with the probes injected.  Returns (binary path, None) or
-    (None, compiler output) when the probe no longer compiles against the tree."""
-    overlay = make_overlay()
+    """go test -c of the /repo package named by probes/<key>/PKG with that directory's probe files injected.
+    Returns (binary path, None) or (None, compiler output) when the probe no longer compiles against the tree."""
     with Lock("probe_" + key):
+        overlay = make_overlay(key)
         out = os.path.join(BUILD, "probes", key + (".race" if race else "") + ".test")
         os.makedirs(os.path.dirname(out), exist_ok=True)
         env = dict(GO_ENV)
@@ -335,7 +328,7 @@ def build_probe(key, race=False):
         cmd = ["go", "test", "-c", "-tags", "verif", "-vet=off", "-overlay", overlay, "-o", out]
         if race:
             cmd.append("-race")
-        cmd.append("./" + PKG_DIRS[key])
+        cmd.append("./" + probe_pkg(key))
         p = sh(cmd, cwd=REPO, env=env, timeout=1500, check=False)
         if p.returncode != 0:
             return None, p.stdout
